@@ -498,6 +498,13 @@ pub fn inject(t: &mut Tape, item: &mut Item, class: usize) -> Option<Expected> {
                 let (a, _) = spell_one(t, Instr::Parent { ded: None, fields: Some(vec![ParentField { attrs: vec![], nested: None, member: "zp".into(), ty: None }, ParentField { attrs: vec![], nested: Some(vec![ParentField { attrs: vec![], nested: None, member: "zq".into(), ty: None }]), member: "zinner".into(), ty: None }]) });
                 fields[fi].attrs.push(a);
                 Some(Expected { class: "untyped-nested-parent".into(), messages: vec!["Field 'zinner' should have type here, e.g. 'zinner: SomeStruct'".into()], parse_stage: false })
+            } else if has_from && t.chance(1, 3) {
+                // the outer level lacks its type, the inner one has it: the outer one is still a violation
+                fields[fi].ty = "Inner".into();
+                let deep = ParentField { attrs: vec![], nested: Some(vec![ParentField { attrs: vec![], nested: Some(vec![ParentField { attrs: vec![], nested: None, member: "zr".into(), ty: None }]), member: "zinner2".into(), ty: Some("Inner2".into()) }]), member: "zinner".into(), ty: None };
+                let (a, _) = spell_one(t, Instr::Parent { ded: None, fields: Some(vec![deep]) });
+                fields[fi].attrs.push(a);
+                Some(Expected { class: "untyped-nested-parent".into(), messages: vec!["Field 'zinner' should have type here, e.g. 'zinner: SomeStruct'".into()], parse_stage: false })
             } else if has_from && t.coin() {
                 // a chain of two untyped levels: each level is a rule violation of its own and must be named
                 fields[fi].ty = "Inner".into();
